@@ -195,7 +195,14 @@ class DULServiceProvider(threading.Thread):
                     evt = self.event.popleft()
                 except IndexError:
                     continue
-                self.state_machine.action(evt)
+                try:
+                    self.state_machine.action(evt)
+                except socket.error:
+                    # Connection is lost while sending: same as 'Transport connection closed'
+                    if self.dul_socket is not None:
+                        self.dul_socket.close()
+                        self.dul_socket = None
+                        self.event.append(fsm.Events.EVT_17)
         except Exception:
             self.to_service_user.put(pdu.AAbortPDU(source=0, reason_diag=0))
             raise
